@@ -185,10 +185,11 @@ def parseLinkInlineG (pd : PD) (st : St) : Except Panic (Option LinkInfo × St) 
     match dest with
     | none => pure (none, { st with rd := rd })
     | some dest =>
-      let (_, rd) ← skipSpaces blockOps (rdFuel rd) 0 rd
+      let ((_, spaces, _), rd) ← skipSpaces blockOps (rdFuel rd) 0 rd
       if (← rd.peek) == 41 then
         let rd ← rd.advance 1
         finish rd dest none
+      else if spaces == 0 then pure (none, { st with rd := rd })   -- link.go:313 (repair 8c83fd9): a title needs white space in front
       else
         let (title, rd) ← parseLinkTitle rd
         match title with
@@ -209,8 +210,11 @@ def parseReferenceLinkG (pd : PD) (env : Env) (st : St) (lseg : Segment) :
   let st := { st with rd := rd }
   if !found then return ((none, false), st)
   let maybeReference ← segsValue rd (segs.getD [])
+  -- link.go:274-281 (repair fb85ad2): only an EMPTY second pair of brackets is a collapsed reference; brackets with
+  -- only white space between them are no label at all (`return nil, false`: the caller tries a shortcut reference)
+  if !maybeReference.isEmpty && isBlank maybeReference then return ((none, false), st)
   let maybeReference ←
-    if isBlank maybeReference then rd.valueOp { start := lseg.stop, stop := orgpos.start - 1 }
+    if maybeReference.isEmpty then rd.valueOp { start := lseg.stop, stop := orgpos.start - 1 }
     else pure maybeReference
   if maybeReference.length > 999 then return ((none, true), st)
   match lookupRef env maybeReference with
